@@ -37,6 +37,9 @@ var preludeKinds = []struct{ name, src string }{
 	// a carriage return that is not part of a CRLF pair is not a line end
 	{"stray-carriage-returns", "a\rb {{ 1 +\r 2 }} {{ 'x\ry' }}{{-- c\rd --}}\r@if(\rtrue)y@end\r\n"},
 	{"carriage-return-before-crlf", "x\r\r\ny\r\n"},
+	// literals and shorthand notations that occur again in the fault further down
+	{"nil-true-false-literals", "{{ nil }}{{ true ? nil : false }}\n{{ x7 = nil }}\n"},
+	{"shorthand-object-properties", "{{ s1 = 1 }}{{ {s1,\n s1}.s1 }}\n"},
 }
 
 type faultKind struct {
@@ -90,6 +93,14 @@ var lineFaults = []faultKind{
 	{"unknown-operator-multiline-string", "{{ \"x\ny\" * \"z\" }}", true, 1},
 	{"unknown-property-multiline-key", "{{ {a: 1}['first\nsecond'] }}", true, 1},
 	{"unknown-function-on-multiline-string", "{{ \"p\nq\".nofn() }}", true, 1},
+	// the left operand is a literal that occurred before; a shorthand property names an undefined identifier;
+	// a stray token between the last slot and the component's own @end
+	{"mistyped-operand-nil-left", "{{ nil + 1 }}", true, 0},
+	{"mistyped-operand-true-left", "{{ true - 1 }}", true, 0},
+	{"undefined-identifier-shorthand-property", "{{ {nope} }}", true, 0},
+	{"undefined-identifier-shorthand-property-later-line", "{{ {a: 1,\n nope,\n b: 2} }}", true, 1},
+	{"stray-token-after-last-slot", "@component(\"c\")\n@slot\ns\n@end\n{{ 1 }}@end", false, 4},
+	{"stray-directive-after-last-slot", "@component(\"c\")@slot(\"a\")s@end\n\n@if(true)x@end@end", false, 2},
 	// chains of operators written over several lines: the failing operator's own line counts
 	{"mistyped-operand-at-end-of-chain", "{{ \"a\"\n + \"b\"\n + 1 }}", true, 2},
 	{"division-by-zero-after-group", "{{ (4\n+ 2)\n/ 0 }}", true, 2},
